@@ -254,7 +254,9 @@ def run_C19(ctx):
                         out["failures"].append({"key": "C19:error-class", "history": h[:oi + 1], "sym": sym,
                                                 "what": f"{sym}: to_function raised {r} instead of a runtime error"})
             if models is not None:
-                m = models[hi]
+                # (the set of elements whose symbols are arguments: order is not part of the observable)
+                m = ["function " + ",".join(sorted(x[9:].split(","), key=lambda t: int(t) if t.isdigit() else -1))
+                     if x.startswith("function ") else x for x in models[hi]]
                 if obs != m:
                     out["disagreements"].append({"what": f"history {h}: implementation {obs} model {m}", "history": h})
             distinct.add(repr(h))
